@@ -1070,6 +1070,12 @@ static ares_status_t ares_dns_write_rr(const ares_dns_record_t *dnsrec,
     end_length = ares_buf_len(buf);
     rdlength   = end_length - pos_len - 2;
 
+    /* RDLENGTH is a 16bit field, RDATA (and thus any option or string within
+     * it) that does not fit cannot be represented */
+    if (rdlength > 0xFFFF) {
+      return ARES_EFORMERR;
+    }
+
     status = ares_buf_set_length(buf, pos_len);
     if (status != ARES_SUCCESS) {
       return status;
@@ -1147,6 +1153,13 @@ ares_status_t ares_dns_write_buf(const ares_dns_record_t *dnsrec,
 
   status = ares_dns_write_rr(dnsrec, &namelist, ARES_SECTION_ADDITIONAL, buf);
   if (status != ARES_SUCCESS) {
+    goto done;
+  }
+
+  /* Maximum DNS message size is 64k, even over TCP (its length prefix is
+   * 16bit) */
+  if (ares_buf_len(buf) - orig_len > 0xFFFF) {
+    status = ARES_EBADQUERY;
     goto done;
   }
 
